@@ -329,6 +329,9 @@ class Report:
                 self.pid, kid, k.get("observed", ""), len(ds), ds[0]["div"]["path"][:160]))
             with open(os.path.join(outdir, "known_%s.json" % kid), "w") as f:
                 json.dump(ds[0], f)
+        with open(os.path.join(outdir, "all_divergences.ndjson"), "w") as f:
+            for d in viol[:20000]:
+                f.write(json.dumps(d["div"]) + "\n")
         seen = set()
         nviol = 0
         for d in viol:
